@@ -34,6 +34,8 @@ def gen_cases(tier, seed):
     cases = []
     for i in range(16 * k):
         cases.append(dict(kind="samplers", seed=int(rng.integers(1 << 30)), cost=3))
+    for i in range(12 * k):
+        cases.append(dict(kind="cem", seed=int(rng.integers(1 << 30)), cost=1))
     for i in range(4 * k):
         cases.append(dict(kind="tanh", seed=int(rng.integers(1 << 30)), cost=1))
         cases.append(dict(kind="noise_stats", seed=int(rng.integers(1 << 30)),
@@ -251,6 +253,60 @@ def run_tanh(case):
                     return res
                 res.see("tanh_extreme_outputs")
     res.nontrivial = True
+    return res
+
+
+def run_cem(case):
+    """Candidates of the cross-entropy planner (direct drive of cem_sample and
+    of the sampler PETS builds from it), means on and next to the bounds."""
+    res = Result()
+    import jax
+    import jax.numpy as jnp
+
+    from rl_blox.algorithm.pets import _init_mpc_optimizer_cem
+    from rl_blox.blox.cross_entropy_method import cem_sample
+
+    rng = np.random.default_rng(case["seed"])
+    A, Hn = int(rng.integers(1, 3)), int(rng.integers(1, 4))
+    space = rand_box(rng, A)
+    lb = np.tile(space.low, (Hn, 1))
+    ub = np.tile(space.high, (Hn, 1))
+    ulp = 4 * np.spacing(np.maximum(np.abs(lb), np.abs(ub))).astype(np.float64)
+    n_pop = int(rng.integers(10, 40))
+    sample_fn, _ = _init_mpc_optimizer_cem(space, Hn, n_pop)
+    near = False
+    for j in range(6):
+        frac = rng.random((Hn, A))
+        mode = rng.integers(4)
+        if mode == 0:      # on a bound
+            frac = rng.choice([0.0, 1.0], size=(Hn, A))
+        elif mode == 1:    # a hair inside a bound
+            frac = np.where(rng.random((Hn, A)) < 0.5, 1e-4, 1 - 1e-4)
+        near |= mode in (0, 1)
+        mean = np.clip((lb + frac * (ub - lb)).astype(np.float32), lb, ub)
+        var = (10 ** rng.uniform(-8, 6, size=(Hn, A))).astype(np.float32)
+        key = jax.random.key(int(rng.integers(1 << 20)))
+        for name, f in (("cem_sample", lambda: cem_sample(
+                jnp.asarray(mean), jnp.asarray(var), key, n_pop,
+                jnp.asarray(lb), jnp.asarray(ub))),
+                        ("pets_sampler", lambda: sample_fn(
+                            jnp.asarray(mean), jnp.asarray(var), key))):
+            ok, smp = guarded(res, f"C10/raises/{name}", f)
+            if not ok:
+                return res
+            smp = np.asarray(smp, np.float64)
+            if smp.shape != (n_pop, Hn, A) or not np.all(np.isfinite(smp)) or \
+                    np.any(smp < lb - ulp) or np.any(smp > ub + ulp):
+                over = np.maximum(lb - smp, smp - ub).max()
+                res.violation(
+                    "C10/cem/candidate_out_of_bounds",
+                    f"{name}: candidate outside the bounds by {over!r} (mean "
+                    f"{'on/next to' if mode in (0, 1) else 'inside'} the bound)",
+                    {"mean": mean, "var": var, "lb": lb[0], "ub": ub[0]})
+                return res
+            res.see("cem_candidates_checked", n_pop)
+    res.nontrivial = near
+    res.state(("cem", A, Hn))
     return res
 
 
